@@ -573,6 +573,7 @@ UriBool URI_FUNC(FixAmbiguity)(URI_TYPE(Uri) * uri,
 
 			/* Case 2: relative path, empty first and second segment */
 			|| (!uri->absolutePath
+			&& !URI_FUNC(IsHostSet)(uri)
 			&& (uri->pathHead != NULL)
 			&& (uri->pathHead->next != NULL)
 			&& (uri->pathHead->text.afterLast == uri->pathHead->text.first)
